@@ -110,8 +110,16 @@ func encodeSeed(kind int, label string, m message.Message) (s *seedMsg) {
 	if _, err := encodingOf("json").EncodeTo(&b2, m); err != nil {
 		return nil
 	}
+	// the library's protobuf encoder writes map entries in Go's map order: for a corpus that is a function
+	// of the seed the same structure is marshalled once more with sorted keys
+	pbs := append([]byte(nil), b1.Bytes()...)
+	if p, err := convert.WireToProto(m); err == nil {
+		if d := detMarshal(p); d != nil {
+			pbs = d
+		}
+	}
 	return &seedMsg{kind: kind, name: cdump.MessageTypes[kind].Name(), label: label, msg: m,
-		pb: append([]byte(nil), b1.Bytes()...), js: append([]byte(nil), b2.Bytes()...)}
+		pb: pbs, js: append([]byte(nil), b2.Bytes()...)}
 }
 
 // corpusSeeds: deterministic (independent of -seed): per message type the zero value, random small
@@ -280,13 +288,87 @@ func mutateSite(s site, r *rng.R) string {
 	return ""
 }
 
-func marshalBoth(p *autogen.Message) (pb, js []byte) {
-	func() {
-		defer func() { recover() }()
-		if b, err := proto.Marshal(p); err == nil {
-			pb = b
+// canonPB makes a protobuf encoding a function of the structure: gogo writes map entries in Go's map
+// order, so adjacent fields with the same number are sorted bytewise, at every nesting level (only
+// reordering: all length prefixes stay valid; a repeated field is reordered too, which is harmless for
+// corpus seeds and mutants).
+func canonPB(b []byte, depth int) []byte {
+	type fld struct {
+		num uint64
+		raw []byte
+	}
+	var fs []fld
+	i := 0
+	for i < len(b) {
+		tag, j, ok := readVarint(b, i)
+		if !ok || tag>>3 == 0 {
+			return b
+		}
+		end := 0
+		switch tag & 7 {
+		case 0:
+			_, k, ok := readVarint(b, j)
+			if !ok {
+				return b
+			}
+			end = k
+		case 1:
+			end = j + 8
+		case 5:
+			end = j + 4
+		case 2:
+			n, k, ok := readVarint(b, j)
+			if !ok || uint64(k)+n > uint64(len(b)) {
+				return b
+			}
+			end = k + int(n)
+			if depth < 8 && n > 0 {
+				inner := canonPB(b[k:end], depth+1)
+				nb := append(append([]byte{}, b[i:k]...), inner...)
+				fs = append(fs, fld{tag >> 3, nb})
+				i = end
+				continue
+			}
+		default:
+			return b
+		}
+		if end > len(b) {
+			return b
+		}
+		fs = append(fs, fld{tag >> 3, append([]byte{}, b[i:end]...)})
+		i = end
+	}
+	for a := 0; a < len(fs); {
+		z := a
+		for z < len(fs) && fs[z].num == fs[a].num {
+			z++
+		}
+		run := fs[a:z]
+		sort.SliceStable(run, func(x, y int) bool { return bytes.Compare(run[x].raw, run[y].raw) < 0 })
+		a = z
+	}
+	out := make([]byte, 0, len(b))
+	for _, f := range fs {
+		out = append(out, f.raw...)
+	}
+	return out
+}
+
+func detMarshal(p *autogen.Message) (out []byte) {
+	defer func() {
+		if recover() != nil {
+			out = nil
 		}
 	}()
+	b, err := proto.Marshal(p)
+	if err != nil {
+		return nil
+	}
+	return canonPB(b, 0)
+}
+
+func marshalBoth(p *autogen.Message) (pb, js []byte) {
+	pb = detMarshal(p)
 	func() {
 		defer func() { recover() }()
 		var buf bytes.Buffer
@@ -445,7 +527,9 @@ func valuePositions(v reflect.Value, path string, out *[]nilPos) {
 				}
 			case reflect.Map:
 				if f.Type.Elem().Kind() == reflect.Ptr {
-					for _, k := range fv.MapKeys() {
+					mkeys := fv.MapKeys()
+					sort.Slice(mkeys, func(a, b int) bool { return mkeys[a].Uint() < mkeys[b].Uint() })
+					for _, k := range mkeys {
 						k := k
 						mv := fv
 						*out = append(*out, nilPos{fp + "{}", func() { mv.SetMapIndex(k, reflect.Zero(mv.Type().Elem())) }})
@@ -791,12 +875,14 @@ func jsonMutants(s *seedMsg, r *rng.R, nmut int, count func(string)) (out []inpu
 			d = "second-oneof"
 		case 8:
 			if m, ok := n.val.(map[string]interface{}); ok && len(m) > 0 {
+				ks := make([]string, 0, len(m))
 				for k := range m {
-					if _, err := fmt.Sscanf(k, "%d", new(int)); err == nil {
-						m["not-a-number"] = m[k]
-						d = "map-key-not-numeric"
-					}
-					break
+					ks = append(ks, k)
+				}
+				sort.Strings(ks)
+				if _, err := fmt.Sscanf(ks[0], "%d", new(int)); err == nil {
+					m["not-a-number"] = m[ks[0]]
+					d = "map-key-not-numeric"
 				}
 			}
 			if d == "" {
